@@ -291,6 +291,34 @@ func runC04(c *Cfg) {
 		r.Count("flow_with_retries.cases", 1)
 		r.Nontrivial("fr:" + scenSig(frc[i]))
 	})
+	// failing attempts that return the very same error value / wrap the previous attempt's error / call themselves
+	// permanent, with and without a retry wait: a later attempt within the budget still decides the outcome
+	var evp []*scen.Scenario
+	for kind := 0; kind < scen.NumScriptedKinds; kind++ {
+		if !scen.KindHasRetry(kind) {
+			continue
+		}
+		for _, ek := range []int{scen.ESameValue, scen.EChained, scen.ENotTemporary} {
+			for _, n := range []int{3, 4} {
+				for _, k := range []int{3, n, n + 1} {
+					for depth := 0; depth <= 2; depth += 2 {
+						nodes := []scen.NodeSpec{{Kind: kind, N: n, ErrKind: ek, WaitMs: (kind + k) % 2, HasFB: false, Visits: []scen.Visit{{FirstOK: k, FBErr: true, Post: "go"}}}}
+						root := 0
+						for d := 0; d < depth; d++ {
+							nodes = append(nodes, scen.NodeSpec{Kind: scen.KFlow, N: 1, Flow: &scen.FlowSpec{Start: root}})
+							root = len(nodes) - 1
+						}
+						evp = append(evp, &scen.Scenario{Nodes: nodes, Root: root, Runs: 1})
+					}
+				}
+			}
+		}
+	}
+	parallelN(c, len(evp), 32, func(i int) {
+		judgeFor(c, "C04", "error-value-patterns", evp[i])
+		r.Count("error_value_patterns.cases", 1)
+		r.Nontrivial("evp:" + scenSig(evp[i]))
+	})
 	// a run of a retried flow is cancelled inside some callback; the NEXT run of the same objects, with a live
 	// context, is judged on what its callbacks returned (a cancelled earlier run leaves nothing behind)
 	parallel(c, len(frc), func(i int) {
